@@ -460,7 +460,7 @@ Proof.
         -- exfalso. injection Heq as Heq _. destruct Htop as [_ [_ Hft]]. congruence.
         -- apply in_map_iff in Hinh as [[k v] [Hkv Hk]]. unfold node_of in Hkv. injection Hkv as <- _ _ _.
            unfold ekeys. apply in_map_iff. exists (k, v). auto.
-      * right. rewrite onames_og. exact Hfresh.
+      * right. split; [rewrite onames_og; exact Hfresh|]. intros s0 Hs0. discriminate Hs0.
   - intros n p Hn Hk. unfold h, ehier in Hn. destruct Hn as [<-|Hn]; [discriminate|].
     apply in_map_iff in Hn as [[x b'] [<- Hxb']]. unfold node_of in Hk. cbn in Hk |- *.
     rewrite onames_og.
